@@ -15,3 +15,17 @@ package extract
 //@   ensures imports-recorded: (val.Kind() == constant.String || val.Kind() == constant.Int || val.Kind() == constant.Float) ==> imports["go/constant"] && imports["go/token"]
 //@   ensures others-by-name: !(val.Kind() == constant.String || val.Kind() == constant.Int || val.Kind() == constant.Float) ==> r == name
 //@   canary val.Kind() == constant.String ==> r == fmt.Sprintf("constant.MakeFromLiteral(%q, token.%s, 0)", val.String(), "STRING")
+
+// qualify (the types.Qualifier used when interface-wrapper method signatures are printed): every
+// package whose name is printed in a signature — any package other than the one being extracted,
+// whether or not the extracted package imports it directly — is marked for import in the wrapper
+// file; the extracted package itself is not touched; the printed qualifier is the package name.
+//@ lit Extractor.genContent var:qualify (pkg) (r)
+//@   props C18
+//@   opt safety = off
+//@   requires [assume] pkg != nil && imports != nil
+//@   ensures foreign-package-imported: pkg.Path() != importPath ==> imports[pkg.Path()]
+//@   ensures own-package-untouched: pkg.Path() == importPath ==> imports[pkg.Path()] == old(imports[pkg.Path()]) && has(imports, pkg.Path()) == old(has(imports, pkg.Path()))
+//@   ensures other-entries-kept: forallS(k, k != pkg.Path() ==> imports[k] == old(imports[k]))
+//@   ensures qualifier-is-package-name: r == pkg.Name()
+//@   canary imports[pkg.Path()]
